@@ -22,7 +22,8 @@ ASSUMPTIONS = ['bootloader protocol: 0x10 info, 0x12 mapping, 0x14 load buffer (
                '(buffer page, flash page, count) answered by (target, 0x18, done, error)',
                'a retransmitted write-flash command re-executes the same copy (idempotent)']
 REQUIRED = ['mon.flashes_completed', 'mon.images_compared', 'mon.load_buffer_packets', 'mon.too_large_refused',
-            'mon.reply_scripts', 'mon.aborted_after_failure', 'mon.page_override', 'mon.exact_multiples']
+            'mon.reply_scripts', 'mon.aborted_after_failure', 'mon.page_override', 'mon.exact_multiples',
+            'mon.flashes_with_progress_callback']
 EXHAUSTIVE = {'quick': False, 'thorough': False}
 DESC_TIMEOUT = 1200
 
@@ -150,6 +151,12 @@ def flash_once(ctx, tid, ps, bp, fp, sp, length, override, script, rnd, label):
                                                      'want': (ps, bp, fp, sp)})
         return
     image = bytes(rnd.getrandbits(8) for _ in range(length))
+    # the way a UI drives it: progress and termination callbacks installed (half of the cases)
+    if (length + ps + bp + fp + (override or 0) + len(script or ())) % 2 == 0:
+        progress = []
+        bl.progress_cb = lambda msg, pct: progress.append((msg, pct))
+        bl.terminate_flashing_cb = lambda: False
+        ctx.count('mon.flashes_with_progress_callback')
     art = FlashArtifact(image, ArtTarget('cf2', 'stm32' if tid == 0xFF else 'nrf51', 'fw', [], []), None)
     start = sp if override is None else override
     tgt.log.clear()
